@@ -45,6 +45,14 @@
 //! * `number-conversions` — directly on `FeelNumber` (`number_conversions`): conversions of integers that fit (the
 //!   expectation is the integer) beside conversions of numbers that do not fit (the expectation is the answer alone);
 //! * the semantics with panics (`Dmn.ConcP`, request `runp`) on the abstract lock shape of the rounds.
+//!
+//! Family added in wave 9:
+//! * `oversubscription` — rounds with far more runnable threads than processors (12 x `available_parallelism`, all
+//!   released from one barrier, one call each): iteration-heavy invocables (`sum(for …)`, a `for` with two iteration
+//!   contexts, `some` / `every` over a long range, a filter over a long list built by `for`) whose `n` is calibrated at
+//!   run time so that one call made alone takes about a quarter of a second; every answer is compared with the
+//!   written-out value (n(n+1)/2 …) and with the answer of the same call made alone. An answer that depends on how
+//!   long the thread was kept off the processor shows here.
 
 use crate::model::Model;
 use crate::report::{Kind, Report};
@@ -1646,6 +1654,10 @@ pub fn run(cfg: &Cfg) -> Report {
       }
     }
   }
+  rep.extra.insert("t_before_oversubscription".into(), json!(t_start.elapsed().as_secs_f64()));
+  if !hung {
+    hung = oversubscription(cfg, &mut rep);
+  }
   rep.extra.insert("t_before_number_conversions".into(), json!(t_start.elapsed().as_secs_f64()));
   if !hung {
     number_conversions(cfg, &mut rep, &mut rng);
@@ -1669,6 +1681,225 @@ pub fn run(cfg: &Cfg) -> Report {
     std::process::exit(0);
   }
   rep
+}
+
+// ------------------------------------------------------------------------------------------------
+// oversubscription: many more runnable threads than processors, every thread in an iteration-heavy invocable
+// ------------------------------------------------------------------------------------------------
+
+/// The iteration-heavy invocables of the family `oversubscription`: name, FEEL text over the input `n` (`K` is replaced
+/// by a constant of the seed), the first `n` of the calibration, the growth of `n` per calibration step in percent (every
+/// construct is quadratic in `n`: a `for` copies its partial results in every step, the quantifiers have two iteration
+/// contexts of length `n`).
+const OVERSUBSCRIBED: [(&str, &str, u64, u64); 6] = [
+  ("Ovs1", "sum(for i in 1..n return i)", 150, 141),
+  ("Ovs2", "sum(for i in 1..n, j in 1..K return i * j)", 40, 141),
+  ("Ovs3", "some i in (for k in 1..n return k), j in (for k in 1..n return k) satisfies i * j + K < 0", 40, 141),
+  ("Ovs4", "every i in (for k in 1..n return k), j in (for k in 1..n return k) satisfies i + j + K > 0", 40, 141),
+  ("Ovs5", "count((for i in 1..n return i)[item > K])", 150, 141),
+  ("Ovs6", "count(for i in 1..n return if (some j in [1, 2, K] satisfies j = i) then i else i + K)", 150, 141),
+];
+
+/// The written-out value of an invocable of the family `oversubscription` (independent of the implementation).
+fn oversubscribed_spec(name: &str, n: u64, k: u64) -> String {
+  let (n, k) = (n as i128, k as i128);
+  match name {
+    "Ovs1" => format!("{}", n * (n + 1) / 2),
+    "Ovs2" => format!("{}", (n * (n + 1) / 2) * (k * (k + 1) / 2)),
+    "Ovs3" => "false".to_string(),
+    "Ovs4" => "true".to_string(),
+    "Ovs5" => format!("{}", (n - k).max(0)),
+    _ => format!("{}", n),
+  }
+}
+
+/// Returns `true` when threads were left behind in the implementation (the caller ends the run).
+fn oversubscription(cfg: &Cfg, rep: &mut Report) -> bool {
+  // a generator of its own: the draws of the other families stay what they were
+  let mut rng = Rng::new(cfg.seed ^ 0x0c20_0c20_9e37_79b9);
+  let thorough = cfg.tier == "thorough";
+  let k = 3 + rng.below(6);
+  let mut xml = String::from("<?xml version=\"1.0\" encoding=\"UTF-8\"?>\n<definitions namespace=\"https://verif/c20over\" name=\"c20over\" id=\"_c20over\" xmlns=\"https://www.omg.org/spec/DMN/20191111/MODEL/\">\n<inputData name=\"n\" id=\"_n\"><variable name=\"n\" typeRef=\"number\"/></inputData>\n");
+  for (name, text, _, _) in OVERSUBSCRIBED.iter() {
+    xml.push_str(&decision(name, "", &[("input", "_n")], &text.replace('K', &k.to_string())));
+  }
+  xml.push_str("</definitions>");
+  let me: Arc<ModelEvaluator> = match guarded(|| dmntk_model::parse(&xml).map_err(|e| e.to_string()).and_then(|d| ModelEvaluator::new(&d).map_err(|e| e.to_string()))) {
+    Ok(Ok(me)) => me,
+    other => {
+      let why = match other {
+        Ok(Err(e)) => e,
+        Err(p) => format!("panic: {}", p),
+        _ => String::new(),
+      };
+      rep.disagree(Kind::ImplVsModel, "oversubscription", "the model of the family oversubscription does not build", &xml, &why, "a model evaluator");
+      return false;
+    }
+  };
+  let input_of = |n: u64| dmntk_feel_evaluator::evaluate_context(&Scope::default(), &format!("{{n: {}}}", n)).ok();
+  let alone = |name: &str, n: u64| -> (String, Duration) {
+    let input = match input_of(n) {
+      Some(c) => c,
+      None => return ("no-input".to_string(), Duration::ZERO),
+    };
+    let t = Instant::now();
+    let r = match guarded(|| canon(&me.evaluate_invocable(name, &input))) {
+      Ok(v) => v,
+      Err(_) => "panic".to_string(),
+    };
+    (r, t.elapsed())
+  };
+  // calibration: n grows until one call made alone takes a quarter of a second on this machine (every answer on the
+  // way is compared with the written-out value: short iterations first)
+  struct Heavy {
+    name: &'static str,
+    text: String,
+    n: u64,
+    alone: String,
+    alone_ms: u128,
+  }
+  let mut heavy: Vec<Heavy> = vec![];
+  let target = Duration::from_millis(250);
+  for (name, text, n0, growth) in OVERSUBSCRIBED.iter() {
+    let mut n = *n0 + rng.below(*n0 / 4);
+    let mut last = (String::new(), Duration::ZERO);
+    for _ in 0..40 {
+      last = alone(name, n);
+      let spec = oversubscribed_spec(name, n, k);
+      rep.case(&format!("oversubscription|alone|{}|{}", name, n), false);
+      if last.0 != spec {
+        rep.disagree(
+          Kind::ImplVsSpec,
+          "oversubscription",
+          "an iteration-heavy call made alone differs from the written-out value",
+          &format!("seed {} model c20over ({} = {}) evaluate_invocable({:?}, {{n: {}}}), nothing else running, took {} ms", cfg.seed, name, text.replace('K', &k.to_string()), name, n, last.1.as_millis()),
+          &last.0,
+          &spec,
+        );
+        break;
+      }
+      if last.1 >= target {
+        break;
+      }
+      // the last steps are made short, so that a call alone stays near the target (well under a second)
+      let g = if last.1 * 4 >= target { (*growth).min(120) } else { *growth };
+      n = n * g / 100 + 1 + rng.below(7);
+    }
+    rep.hit(&format!("oversubscription:alone-ms:{}", if last.1.as_millis() < 200 { "<200" } else if last.1.as_millis() < 500 { "200..500" } else { ">=500" }));
+    heavy.push(Heavy { name, text: text.replace('K', &k.to_string()), n, alone: last.0, alone_ms: last.1.as_millis() });
+  }
+  rep.extra.insert("oversubscription_calibration".into(), json!(heavy.iter().map(|h| json!({"invocable": h.name, "text": h.text, "n": h.n, "alone_ms": h.alone_ms as u64})).collect::<Vec<_>>()));
+  // the rounds: `factor` x processors threads leave one barrier together, one call each; round 0 has every construct
+  // (thread t calls construct t mod 6), the following rounds put all threads into ONE construct
+  let processors = std::thread::available_parallelism().map(|v| v.get()).unwrap_or(4);
+  let rounds = if thorough { 1 + heavy.len() } else { 2 };
+  let first_single = rng.below(heavy.len() as u64) as usize;
+  for round in 0..rounds {
+    let factor = if round == 0 { 12 } else { 8 + rng.below(5) as usize };
+    let threads = (processors * factor).clamp(48, 768);
+    let which: Vec<usize> = (0..threads).map(|t| if round == 0 { t % heavy.len() } else { (first_single + round - 1) % heavy.len() }).collect();
+    let barrier = Arc::new(Barrier::new(threads));
+    let (tx, rx) = mpsc::channel::<(usize, String, u128)>();
+    let t_round = Instant::now();
+    let mut spawned = 0usize;
+    for (t, &w) in which.iter().enumerate() {
+      let (me, barrier, tx) = (Arc::clone(&me), Arc::clone(&barrier), tx.clone());
+      let (name, input) = (heavy[w].name, input_of(heavy[w].n));
+      let h = std::thread::Builder::new().stack_size(4 << 20).spawn(move || {
+        barrier.wait();
+        let t0 = Instant::now();
+        let r = match input {
+          Some(input) => match guarded(|| canon(&me.evaluate_invocable(name, &input))) {
+            Ok(v) => v,
+            Err(_) => "panic".to_string(),
+          },
+          None => "no-input".to_string(),
+        };
+        let _ = tx.send((t, r, t0.elapsed().as_millis()));
+      });
+      if h.is_ok() {
+        spawned += 1;
+      }
+    }
+    drop(tx);
+    if spawned < threads {
+      // the barrier would never open: nothing to observe in this round (the threads are left waiting)
+      rep.notes.push(format!("oversubscription: only {} of {} threads could be started, round skipped", spawned, threads));
+      rep.hit("oversubscription:threads-not-started");
+      return false;
+    }
+    let mut answers: Vec<Option<(String, u128)>> = vec![None; threads];
+    let deadline = Instant::now() + Duration::from_secs(180);
+    let mut got = 0usize;
+    while got < threads {
+      match rx.recv_timeout(deadline.saturating_duration_since(Instant::now())) {
+        Ok((t, r, ms)) => {
+          answers[t] = Some((r, ms));
+          got += 1;
+        }
+        Err(_) => break,
+      }
+    }
+    let describe = |w: usize| format!("evaluate_invocable({:?}, {{n: {}}}) [{} = {}]", heavy[w].name, heavy[w].n, heavy[w].name, heavy[w].text);
+    let history = |t: usize, r: &str, ms: u128| {
+      let w = which[t];
+      let wrong = (0..threads).filter(|&u| answers[u].as_ref().map(|a| a.0 != oversubscribed_spec(heavy[which[u]].name, heavy[which[u]].n, k)).unwrap_or(true)).count();
+      format!(
+        "seed {} model c20over, round {}: {} threads on {} processors leave one barrier together, one call each on the shared evaluator ({}); thread {}: {} -> {} after {} ms; the same call made alone -> {} in {} ms; {} of {} calls of the round wrong",
+        cfg.seed,
+        round,
+        threads,
+        processors,
+        if round == 0 { "thread t calls Ovs(1 + t mod 6)".to_string() } else { format!("every thread calls {}", heavy[which[0]].name) },
+        t,
+        describe(w),
+        r,
+        ms,
+        heavy[w].alone,
+        heavy[w].alone_ms,
+        wrong,
+        threads
+      )
+    };
+    if got < threads {
+      let t = (0..threads).find(|&t| answers[t].is_none()).unwrap_or(0);
+      rep.disagree(
+        Kind::ImplVsSpec,
+        "oversubscription",
+        "deadlock: a round with many more threads than processors does not finish within 180 s",
+        &history(t, "no answer", 180_000),
+        "no answer",
+        &oversubscribed_spec(heavy[which[t]].name, heavy[which[t]].n, k),
+      );
+      rep.case(&format!("oversubscription|round|{}|{}", threads, round), true);
+      return true;
+    }
+    let mut reported = vec![false; heavy.len()];
+    let mut slowest = 0u128;
+    for t in 0..threads {
+      let w = which[t];
+      let (r, ms) = answers[t].clone().unwrap_or_default();
+      slowest = slowest.max(ms);
+      let spec = oversubscribed_spec(heavy[w].name, heavy[w].n, k);
+      if (r != spec || r != heavy[w].alone) && !reported[w] {
+        reported[w] = true;
+        rep.disagree(
+          Kind::ImplVsSpec,
+          "oversubscription",
+          "an iteration-heavy call made while there are many more runnable threads than processors differs from the written-out value and from the same call made alone",
+          &history(t, &r, ms),
+          &r,
+          &spec,
+        );
+      }
+    }
+    rep.case(&format!("oversubscription|round|{}|{}|{}", threads, round, heavy.iter().map(|h| format!("{}:{}", h.name, h.n)).collect::<Vec<_>>().join(",")), true);
+    rep.hit(&format!("oversubscription:threads-per-processor:{}", factor));
+    rep.hit(&format!("oversubscription:slowest-call:{}", if slowest < 1500 { "<1.5s" } else if slowest < 4000 { "1.5..4s" } else { ">=4s" }));
+    rep.extra.insert(format!("oversubscription_round_{}", round), json!({"threads": threads, "processors": processors, "wall_ms": t_round.elapsed().as_millis() as u64, "slowest_call_ms": slowest as u64}));
+  }
+  rep.notes.push("oversubscription: oracle = the written-out value of the iteration (n(n+1)/2, n(n+1)/2 * K(K+1)/2, false, true, n - K, n), beside the answer of the same call made alone".into());
+  false
 }
 
 // ------------------------------------------------------------------------------------------------
